@@ -40,8 +40,8 @@ CLAIMS = {
         ref="DESIGN.md §5 C11", tech=TECH_V + "; bounded executable stand-ins (xsim, xreg as counterexample generators and fallback; xexec for the single-threaded executor's report), labelled bounded"),
     "C12": dict(
         text="Kani proves, per capacity (1,2 quick; 1..5 thorough) and for every representation-invariant-satisfying state (any sequence count, fill level, open/closed) - i.e. for histories of any length - the sequential contracts of Queue::{push,pop + MessageBorrow::drop,close,len,next_queue_pos}: never more than capacity messages, FIFO, each message exactly once, len exact, Full only when full, after close pushes fail and accepted messages stay receivable. The concurrency half of the property (linearizability under multi-producer interleavings, no lost wake-ups in channel.rs) is NOT decided.",
-        note="sequential execution only (Kani has no threads); capacities enumerated, not symbolic; compare_exchange_weak never fails spuriously. The async Sender::send / Receiver::recv paths and their wake-up pairing are decided only BOUNDED and only for cooperative schedules on one thread: stand-in xchan runs the real channel.rs + queue.rs (stub crates for async_event, diatomic_waker, recycle_box, crossbeam_utils) with two senders and the receiver under every schedule up to the bound - capacity, exactly-once in producer order, length, waiting tasks resumed, close; interleavings of threads inside one operation are not decided",
-        ref="DESIGN.md §5 C12", tech="Kani (CBMC) inductive per-operation contract harnesses appended to the real channel/queue.rs; complete per capacity; bounded executable stand-in (xchan) for send / recv / wake-ups on one thread, labelled bounded"),
+        note="sequential execution only (Kani has no threads); capacities enumerated, not symbolic; compare_exchange_weak never fails spuriously. The async Sender::send / Receiver::recv paths and their wake-up pairing are decided only BOUNDED and only for cooperative schedules on one thread: stand-in xchan runs the real channel.rs + queue.rs (stub crates for async_event, diatomic_waker, recycle_box, crossbeam_utils) with two senders and the receiver under every schedule up to the bound - capacity, exactly-once in producer order, length, waiting tasks resumed, close; interleavings of threads inside push / pop are decided only within loom's bound (stand-in lqueue: two producers, two messages each, the consumer, capacities 2 and 3, preemption bound 2 quick / 3 thorough); wake-ups delivered from other threads are not decided",
+        ref="DESIGN.md §5 C12", tech="Kani (CBMC) inductive per-operation contract harnesses appended to the real channel/queue.rs; complete per capacity; bounded stand-ins: xchan (send / recv / wake-ups on one thread) and lqueue (loom, push / pop under thread interleavings), labelled bounded"),
     "C14": dict(
         text="Second sentence - PROOF: Verus proves that Output::{connect, connect_sink} and Requestor::connect add exactly one connection to the value shared by all clones (CachedRwLock::write) and that Output::send / Requestor::send broadcast over a copy synchronised with that shared value (unit ports); Kani proves (loop-free, all u32 values) the CachedRwLock contract this rests on: write bumps the shared epoch exactly once and every clone's next read sees the new value; BOUNDED under thread interleavings (stand-in lcrw: loom model checking of the real CachedRwLock, three threads, preemption bound 3): a read that happens after a write returned sees it and a clone's view never goes back. First sentence - BOUNDED only (stand-in xbcast, never counted as proved): the real text of ports/output/broadcaster.rs and util/task_set.rs, driven on one thread with 1..3 scripted repliers (quick; 4 thorough), every accept/filter pattern, every subset replying late, every completion order, spurious and late wake-ups, partially consumed or dropped earlier queries, clones: the query broadcast returns exactly one reply per accepting replier, computed from the request, in connection order, only after all of them replied, and is never left un-woken.",
         note="sequential execution throughout: interleavings of repliers' wake-ups on DIFFERENT threads (the lock-free Treiber stack of TaskSet under the C11 model) are not decided; map/filter_map connect variants (Fn closures) are not under contract; the source-side broadcasters (ports/source) are not covered",
